@@ -755,6 +755,9 @@ func (e *Exec) checkFrame(st *State, n ast.Node) {
 		if k == allocGhost {
 			continue
 		}
+		if g, ok := e.prog.specs.Ghosts[k]; ok && g.Log {
+			continue
+		}
 		check("ghost", k, now, e.entry.ghostVar(k, now.Sort))
 	}
 }
